@@ -893,6 +893,13 @@ def run_shard(sh, params):
         c = gen_case(sh.seed, g)
         try:
             run_srs_case(sh, srs, rec, c)
+            if g % 5 == 2:
+                # call history: the same request again with another Q only (same response
+                # type, sample rate and frequencies, same process) -- anything remembered
+                # from the first call must not leak into the second
+                q2 = [q for q in QS if q != c["Q"]][g % (len(QS) - 1)]
+                run_srs_case(sh, srs, rec, {**c, "Q": q2})
+                sh.count("history-same-request-other-Q")
         except Exception as e:      # harness-side failure on one case: report, go on
             import traceback
             sh.violation("harness-exception", {"seed": sh.seed, "g": g},
@@ -923,7 +930,7 @@ MANDATORY_CELLS = (
      "ratio:<10", "ratio:<100", "ratio:>=100", "ratio:>1000",
      "roll:linear/f2", "roll:linear/f>=3", "roll:lanczos/f2", "roll:lanczos/f>=3",
      "roll:fft/f2", "roll:fft/f>=3", "roll:prefilter", "roll:not-needed",
-     "hist-steady-nonzero-start",
+     "hist-steady-nonzero-start", "history-same-request-other-Q",
      "sh-peak:two-signed", "hist-window:primary", "hist-window:residual",
      "hist-window:total", "frf:given", "frf:none", "frf:qonly", "frf:qonly-none",
      "frf:single-line", "vrs-miles:nonzero", "oracle-selfcheck"]
